@@ -373,10 +373,54 @@ def c14_rust(ctx):
     c14_regex_threading(ctx, F)
     c14_tie_break(ctx, F)
     c14_lex_state_merge(ctx, F)
+    c14_prefer(ctx, F)
     fn = find_fn(ctx, F, "build_tables::identify_keywords", "G3")
     if fn:
         empty = [pt for pt, c, d in calls_named(fn, "TokenSet::new")]
         text_gate(ctx, "G3", fn, empty, [("no word token ⇒ no keywords", [(("is_none",), True)])], accept_desc="returning the empty keyword set")
+
+
+def c14_prefer(ctx, F):
+    """C14.T1: the order of the tie-breaking criteria.  prefer_token: explicit precedence decides first,
+    then the implicit (string-over-regex) precedence, then the earlier token; prefer_transition (keep
+    lexing past a completed token): never for a lower precedence, at equal precedence never across a
+    separator and — if separators follow — only inside the completed token itself."""
+    fn = find_fn(ctx, F, "TokenConflictMap::prefer_token", "T1")
+    if fn and len(fn.params) >= 3:
+        l, r = fn.params[1]["name"], fn.params[2]["name"]
+        rets = [(pt, strip(x["r"])) for pt, e in fn.points() for x in own_walk(e) if x.get("k") == "assign" and show(x["l"]) == "_0"]
+        yes = [pt for pt, v in rets if v.get("k") == "int" and v.get("v") == 1]
+        no = [pt for pt, v in rets if v.get("k") == "int" and v.get("v") == 0]
+        idx = [pt for pt, v in rets if v.get("k") not in ("int",)]
+        outer = ("Ord for i32>::cmp(&(%s).0, " % l, "(%s).0))" % r)
+        inner = ("implicit_precedence",)
+        ctx.floor("constant verdicts of prefer_token", len(yes) + len(no), 4)
+        text_gate(ctx, "T1", fn, yes, [("`left wins` only on a greater explicit precedence, or an equal one and a greater implicit precedence",
+                                         [(outer + ("=Greater",), True), (inner + ("=Greater",), True)])], accept_desc="preferring the left token", deep=True)
+        text_gate(ctx, "T1", fn, no, [("`right wins` only on a smaller explicit precedence, or an equal one and a smaller implicit precedence",
+                                        [(outer + ("=Less",), True), (inner + ("=Less",), True)])], accept_desc="preferring the right token", deep=True)
+        text_gate(ctx, "T1", fn, [pt for pt in yes + no if True], [("the implicit precedence is consulted only at equal explicit precedence",
+                                                                    [(outer + ("=Greater",), True), (outer + ("=Less",), True), (outer + ("=Equal",), True)])], accept_desc="deciding", deep=True)
+        if idx:
+            text_gate(ctx, "T1", fn, idx, [("the token index breaks ties only when both precedences are equal", [(inner + ("=Equal",), True)]),
+                                           ("…explicit precedence equal", [(outer + ("=Equal",), True)])], accept_desc="falling back to the token order", deep=True)
+            t = " ".join(inline_text(fn, x["r"]) for x in own_walk(dict(fn.points())[idx[0]]) if x.get("k") == "assign" and show(x["l"]) == "_0")
+            if "(%s.1 < %s.1)" % (l, r) in t:
+                ctx.ok("T1", "prefer_token:earlier-token-wins", "at equal precedences the earlier token (smaller index) wins")
+            else:
+                ctx.bad("T1", "prefer_token:earlier-token-wins", "prefer_token's last resort is no longer `left.1 < right.1` (`%s`)" % t[:80])
+        else:
+            ctx.bad("T1", "prefer_token:earlier-token-wins", "prefer_token no longer falls back to the token order")
+    fn = find_fn(ctx, F, "TokenConflictMap::prefer_transition", "T1")
+    if fn:
+        rets = [(pt, strip(x["r"])) for pt, e in fn.points() for x in own_walk(e) if x.get("k") == "assign" and show(x["l"]) == "_0"]
+        yes = [pt for pt, v in rets if v.get("k") == "int" and v.get("v") == 1]
+        ctx.floor("`keep lexing` verdicts of prefer_transition", len(yes), 1)
+        text_gate(ctx, "T1", fn, yes, [
+            ("lexing continues past a completed token only at an equal or higher precedence", [((".precedence < ",), False)]),
+            ("…at equal precedence not across a separator", [((".precedence == ",), False), ((".is_separator",), False)]),
+            ("…and, if separators can follow, only while still inside the completed token", [((".precedence == ",), False), (("has_separator_transitions",), False), (("Iterator::any(",), True)]),
+        ], accept_desc="preferring the transition")
 
 
 def c14_lex_state_merge(ctx, F):
